@@ -14,7 +14,17 @@ theorem accepted_monotone (a : Ann) (ha : a.adequate = true) (s t : Sys) (hst : 
     (hr : Reachable a (Sys.init ver gen cells0) s)
     (hnowrap : completedUpdates t.log < 32767) :
     s.r.acceptedIdx ≤ t.r.acceptedIdx := by
-  sorry
+  cases hst with
+  | wNew hidle => exact Nat.le_refl _
+  | wWrite rec hidle hl => exact Nat.le_refl _
+  | wStep pick hne => exact Nat.le_refl _
+  | wKill => exact Nat.le_refl _
+  | rOpen hidle =>
+    rcases hopen with h | h
+    · exact absurd rfl h
+    · rw [h]; exact Nat.le_refl _
+  | rCall hidle => exact Nat.le_refl _
+  | rStep pc pm hne => exact rStep_acceptedIdx_mono ((reachable_inv hc hg hr).rd ha) pc pm
 
 /-- the cached record always is the record as of `acceptedIdx` (or the empty record before any
     acceptance), so monotone indices mean records in publication order -/
@@ -25,7 +35,7 @@ theorem cache_is_accepted_publication (a : Ann) (ha : a.adequate = true)
     (s.r.cacheGen = 0 ∧ s.r.cache = zerosN) ∨
     (s.r.cache = pubCells s.log s.r.acceptedIdx ∧
       ∃ m, s.log[s.r.acceptedIdx]? = some m ∧ m.loc = .gen ∧ m.val = s.r.cacheGen) := by
-  sorry
+  exact (reachable_cinv_few hc hg ha hr hnowrap).rel
 
 /-- …which can only differ from the live record after a multiple of 32767 completed updates: within
     fewer than 32767 updates two even generation messages with equal values are the same message -/
@@ -35,6 +45,6 @@ theorem equal_generation_same_message (a : Ann)
     (i j : Nat) (mi mj : SL.Msg) (hi : s.log[i]? = some mi) (hj : s.log[j]? = some mj) (hij : i ≤ j)
     (hgi : mi.loc = .gen) (hgj : mj.loc = .gen) (hev : mi.val % 2 = 0) (heq : mi.val = mj.val)
     (hfew : evenGenBetween s.log i j < 32767) : i = j := by
-  sorry
+  exact (reachable_inv hc hg hr).log.equal_even_gen hc hi hj hij hgi hgj hev heq hfew
 
 end ClockBound.C03
